@@ -244,6 +244,54 @@ fn circles_gaussian(rng: &mut Rng) {
     emit_oracle_only("fit.circle_gaussian", &Tok::new(), &Tok::new(), &v);
 }
 
+/// The outlier-rejecting mode on CONTAMINATED data: most samples on a circle (small noise), a few far off it, the
+/// guess displaced in a random direction (towards or away from the outliers).  The fit stops at a stationary point
+/// of the summed squared radial residuals of the samples it retains AT THE RESULT (those within k standard deviations
+/// of the mean residual there) — not of the samples that happened to be retained at the guess.
+fn circles_outliers(rng: &mut Rng) {
+    let c = Circle2::new(rng.range(-5.0, 5.0), rng.range(-5.0, 5.0), rng.range(1.0, 5.0));
+    let n = rng.int(24, 60) as usize;
+    let a0 = rng.range(0.0, 2.0 * PI);
+    let mut pts: Vec<Point2> = (0..n).map(|k| { let a = a0 + 2.0 * PI * k as f64 / n as f64; let r = c.r() * (1.0 + rng.range(-1e-3, 1e-3)); Point2::new(c.center.x + r * a.cos(), c.center.y + r * a.sin()) }).collect();
+    // two to four outliers bunched on one side, 15 % … 40 % of a radius off the circle
+    let side = rng.range(0.0, 2.0 * PI);
+    for _ in 0..rng.int(2, 4) {
+        let a = side + rng.range(-0.3, 0.3);
+        let r = c.r() * (1.0 + rng.range(0.15, 0.4));
+        pts.push(Point2::new(c.center.x + r * a.cos(), c.center.y + r * a.sin()));
+    }
+    let gd = rng.range(0.0, 2.0 * PI);
+    let g = Circle2::new(c.center.x + c.r() * 0.25 * gd.cos(), c.center.y + c.r() * 0.25 * gd.sin(), c.r() * rng.range(0.85, 1.15));
+    let sigma = *rng.pick(&[2.0, 2.5, 3.0]);
+    let mut v = Verdict::new();
+    match guarded(|| Circle2::fitting_circle(&pts, &g, BestFit::Gaussian(sigma))) {
+        Err(e) => v.require(false, "circle_fit.panics", || e.clone()),
+        Ok(Err(_)) => {}
+        Ok(Ok(f)) => {
+            let res: Vec<f64> = pts.iter().map(|p| (p - f.center).norm() - f.r()).collect();
+            let mean = res.iter().sum::<f64>() / res.len() as f64;
+            let sd = (res.iter().map(|r| (r - mean).powi(2)).sum::<f64>() / res.len() as f64).sqrt();
+            // samples well clear of the k-sigma boundary on either side; a sample ON the boundary may be either
+            let margin = 0.05;
+            let kept: Vec<usize> = (0..pts.len()).filter(|i| (res[*i] - mean).abs() / sd <= sigma - margin).collect();
+            let boundary = (0..pts.len()).any(|i| ((res[i] - mean).abs() / sd - sigma).abs() < margin);
+            if !boundary && kept.len() >= 3 {
+                let (mut gx, mut gy, mut gr) = (0.0, 0.0, 0.0);
+                for i in &kept {
+                    let d = pts[*i] - f.center;
+                    let nrm = d.normalize();
+                    gx += -nrm.x * res[*i];
+                    gy += -nrm.y * res[*i];
+                    gr += -res[*i];
+                }
+                let gnorm = (gx * gx + gy * gy + gr * gr).sqrt();
+                v.require(gnorm <= 1e-4 * (1.0 + c.r()) * (pts.len() as f64).sqrt(), "circle_fit.outlier_mode_stationary_for_the_samples_it_retains", || format!("|J^T r| over the {} retained of {} samples = {gnorm:e}; result {:?} r={} (generating {:?} r={}), guess {:?} r={}, sigma {sigma}", kept.len(), pts.len(), f.center, f.r(), c.center, c.r(), g.center, g.r()));
+            }
+        }
+    }
+    emit_oracle_only("fit.circle_outliers", &Tok::new(), &Tok::new(), &v);
+}
+
 fn circles(rng: &mut Rng) {
     let c = Circle2::new(rng.range(-5.0, 5.0), rng.range(-5.0, 5.0), rng.range(0.5, 5.0));
     let a0 = rng.range(0.0, 2.0 * PI);
@@ -336,5 +384,6 @@ pub fn run(rng: &mut Rng, n: usize) {
         }
         case("fit.case", "c09.library_call_panics", || circles(rng));
         case("fit.case", "c09.library_call_panics", || circles_gaussian(rng));
+        case("fit.case", "c09.library_call_panics", || circles_outliers(rng));
     }
 }
